@@ -52,6 +52,7 @@ type ctlReq struct {
 	hops     []reqHop     // request frames seen on the wire, in order
 	onPath   map[int]bool // agents that sent or received a frame of this request
 	consumed bool         // a terminal response has been attributed to this call
+	mayFail  bool         // a link on (one of) its path(s) is reset during the round: an error answer or a time-out is legitimate
 }
 
 type reqHop struct {
@@ -85,6 +86,7 @@ func typName(t uint8) string {
 }
 
 type c39World struct {
+	open    map[[3]uint64]int // (from, to, id) of requests on the wire that no response has answered yet
 	m       *Mesh
 	byName  map[string]int
 	reqs    []*ctlReq
@@ -111,6 +113,10 @@ func (w *c39World) onFrame(ev *FrameEvent) {
 			return
 		}
 		r.hops = append(r.hops, reqHop{f, t, req.RequestID})
+		if w.open == nil {
+			w.open = map[[3]uint64]int{}
+		}
+		w.open[[3]uint64{uint64(f), uint64(t), req.RequestID}]++
 		r.onPath[f] = true
 		r.onPath[t] = true
 		simrt.Eventf("wire REQ %s->%s id=%d %s tag=%s target=%s", ev.From, ev.To, req.RequestID, typName(req.ControlType), r.tag, w.m.NameOf(req.TargetAgent))
@@ -123,6 +129,14 @@ func (w *c39World) onFrame(ev *FrameEvent) {
 		t, okt := w.byName[ev.To]
 		if !okf || !okt {
 			return
+		}
+		// a response travels back over the link its request came over, under the
+		// id the request carried on that link: anything else is a response sent to
+		// an agent that has no matching request outstanding toward the sender
+		if k := ([3]uint64{uint64(t), uint64(f), resp.RequestID}); w.open[k] > 0 {
+			w.open[k]--
+		} else {
+			simrt.Failf("response-without-request", "an agent sent a response under an id its receiver has no request outstanding for on that link", "%s->%s response id=%d (%s ok=%v)", ev.From, ev.To, resp.RequestID, typName(resp.ControlType), resp.Success)
 		}
 		rf := &respFrame{seq: ev.Seq, from: f, to: t, id: resp.RequestID, typ: resp.ControlType, success: resp.Success,
 			key: fmt.Sprintf("%d/%v/%d/%x", resp.ControlType, resp.Success, len(resp.Data), simrt.FNV(resp.Data))}
@@ -230,6 +244,10 @@ func (w *c39World) checkAnswer(r *ctlReq) {
 	if resp.ControlType != r.typ {
 		simrt.Failf("wrong-answer", "response of another control type delivered to the caller", "%s: got type %s id=%d", who, typName(resp.ControlType), resp.RequestID)
 	}
+	if !resp.Success && r.mayFail {
+		simrt.Probe("c39_error_answer_after_link_fault")
+		return
+	}
 	if !resp.Success {
 		simrt.Failf("wrong-answer", "error response delivered instead of the target's answer ("+typName(r.typ)+")", "%s: %q", who, resp.Data)
 	}
@@ -304,7 +322,9 @@ func (w *c39World) judgeTerminals() {
 		rf.closed = true
 		match := func(r *ctlReq) bool {
 			if !rf.success {
-				return r.onPath[origin] // an error produced by an agent the request passed
+				// an error produced by an agent the request passed; a call that
+				// got its target's answer is not what this error belongs to
+				return r.onPath[origin] && !(r.resp != nil && r.resp.Success)
 			}
 			if len(rf.answerers) > 0 {
 				return r.typ == rf.typ && containsInt(rf.answerers, r.to)
@@ -312,6 +332,14 @@ func (w *c39World) judgeTerminals() {
 			return r.typ == rf.typ && r.to == origin
 		}
 		var asker, transitOf *ctlReq
+		// two calls of one agent to one target for the same kind of answer look
+		// alike: the one that went out under the id the response carries is the asker
+		for _, r := range w.reqs {
+			if match(r) && r.from == z && !r.consumed && len(r.hops) > 0 && firstID(r) == rf.id {
+				asker = r
+				break
+			}
+		}
 		for _, r := range w.reqs {
 			if !match(r) {
 				continue
@@ -349,6 +377,31 @@ func firstID(r *ctlReq) uint64 {
 		return 0
 	}
 	return r.hops[0].id
+}
+
+// connectedWithout reports whether a and b are connected in the configured topology minus edge e.
+func connectedWithout(m *Mesh, e [2]int, a, b int) bool {
+	adj := map[int][]int{}
+	for _, x := range m.Edges {
+		if (x[0] == e[0] && x[1] == e[1]) || (x[0] == e[1] && x[1] == e[0]) {
+			continue
+		}
+		adj[x[0]] = append(adj[x[0]], x[1])
+		adj[x[1]] = append(adj[x[1]], x[0])
+	}
+	seen := map[int]bool{a: true}
+	todo := []int{a}
+	for len(todo) > 0 {
+		x := todo[0]
+		todo = todo[1:]
+		for _, y := range adj[x] {
+			if !seen[y] {
+				seen[y] = true
+				todo = append(todo, y)
+			}
+		}
+	}
+	return seen[b]
 }
 
 func runC39() {
@@ -410,6 +463,49 @@ func runC39() {
 			batch = append(batch, r)
 			simrt.Eventf("plan %s: %s asks %s for %s after %v", r.tag, m.Nodes[from].Name, m.Nodes[to].Name, typName(r.typ), r.delay)
 		}
+		// fault round: one mesh link is reset while the calls are in flight. Calls
+		// whose way to the target does not use that link must be answered as if
+		// nothing had happened; the others may fail or time out, but never
+		// receive another call's answer.
+		faulted := round > 0 && simrt.Chance(1, 2, "fault-round")
+		var fg simrt.Group
+		if faulted {
+			// a peers answer is recognised by comparing it with the agents' peer
+			// lists, which the fault changes: fault rounds ask for answers that
+			// name their author (status, routes)
+			for _, r := range batch {
+				if r.typ == protocol.ControlTypePeers {
+					r.typ = protocol.ControlTypeStatus
+				}
+			}
+			e := m.Edges[simrt.Choose(len(m.Edges), "fault-edge")]
+			for _, r := range batch {
+				r.mayFail = topo == "diamond" || !connectedWithout(m, e, r.from, r.to)
+				if !r.mayFail {
+					simrt.Probe("c39_call_off_the_faulted_link")
+				}
+			}
+			// at the very instant one of the calls goes out (the order within the
+			// instant is the scheduler's), or anywhere in the round
+			at := batch[simrt.Choose(len(batch), "fault-with-call")].delay
+			if simrt.Chance(1, 3, "fault-anywhere") {
+				at = time.Duration(simrt.Choose(320, "fault-at-ms")) * time.Millisecond
+			}
+			fg.Go("fault", func() {
+				simrt.Sleep(at)
+				for _, l := range m.Net.Links() {
+					if l.Kind != "peer" || l.Dead() {
+						continue
+					}
+					a, b := m.Nodes[e[0]].Name, m.Nodes[e[1]].Name
+					if (l.DialNode == a && l.AccNode == b) || (l.DialNode == b && l.AccNode == a) {
+						simrt.Eventf("fault: reset mesh link %s-%s", a, b)
+						simrt.Probe("c39_link_reset_during_calls")
+						l.Reset()
+					}
+				}
+			})
+		}
 		var g simrt.Group
 		for _, r := range batch {
 			r := r
@@ -440,9 +536,16 @@ func runC39() {
 			})
 		}
 		g.Wait()
+		fg.Wait()
 		simrt.Sleep(2 * time.Second)
 		w.judgeTerminals()
 		w.roundProbes(batch)
+		if faulted {
+			if !m.WaitConnected(3 * time.Minute) {
+				simrt.Failf("mesh-did-not-reconnect", "configured peers did not reconnect after the fault", "edges=%v", m.Edges)
+			}
+			Settle(m)
+		}
 	}
 	// nothing may be left waiting for a response once every call has returned
 	for _, nd := range m.Nodes {
